@@ -2,7 +2,7 @@
 import srvprops
 
 PROP = "C04"
-THEOREMS = ["C04_model_smoke"]
+THEOREMS = ["C04_owner_and_member_gates", "C04_single_owner_reachable"]
 
 
 def run(tier, replay=None):
